@@ -127,6 +127,7 @@ def judge(ck, inp, probe, outputs, observed, ans, ctl):
         return
     # ---- oracle
     for si, ob in enumerate(observed):
+        c06.flush_oracle(ck, dict(inp, session=si), probe, outputs, ob, set())
         if ob.crash:
             ck.oracle_fail('no_crash', dict(inp, session=si), {'crash': ob.crash}, {'exception': ob.crash[0]})
             return
@@ -187,7 +188,7 @@ def judge(ck, inp, probe, outputs, observed, ans, ctl):
 
 
 # ---------------------------------------------------------------- thorough: real processes, real signals
-HARNESS_SH = r'''#!/bin/sh
+HARNESS_SH = r"""#!/bin/sh
 # fake benchmark harness: logs its start, then signals its ReBench ancestor or prints results
 dir="%(dir)s"
 n=$(cat "$dir/count" 2>/dev/null || echo 0)
@@ -200,27 +201,36 @@ if [ "$n" = "$stop" ]; then
   sleep 5
   exit 1
 fi
-echo "$1: iterations=1 runtime: $((n %% 7 + 1)).5ms"
-echo "$1: iterations=1 runtime: 3ms"
-'''
+j=1
+while [ $j -le %(iters)d ]; do
+  echo "$1: mem: $((j * 1000 + 123))kb"
+  echo "$1: gc: $((j + 7)).25ms"
+  echo "$1: iterations=1 runtime: $((j %% 7 + 1)).5ms"
+  j=$((j+1))
+done
+"""
 
 
-def cli_sessions(ck, n_scen):
+def cli_sessions(ck, n_scen, forced=()):
     """real CLI: `python -m rebench` children with a /bin/sh harness that sends INT / TERM / KILL to
-    its ReBench ancestor at the k-th start.  Only pids started here are ever signalled."""
+    its ReBench ancestor at the k-th start.  Only pids started here are ever signalled.
+    `forced`: specs run first; the 'big' one prints 80 iterations x 3 criteria per invocation (> 8 KB per
+    invocation), so that data persisted but not flushed would be cut at a buffer boundary by SIGKILL."""
     rng = ck.rng
-    for idx in range(n_scen):
-        sig = rng.choice(['INT', 'TERM', 'KILL'])
+    specs = list(forced)
+    for _ in range(n_scen):
         n_runs = rng.randint(2, 3)
         n_inv = rng.randint(1, 2)
-        total = n_runs * n_inv
-        k = rng.randint(1, total)
-        sched = rng.choice(SCHEDS)
+        specs.append({'sig': rng.choice(['INT', 'TERM', 'KILL']), 'runs': n_runs, 'inv': n_inv,
+                      'k': rng.randint(1, n_runs * n_inv), 'sched': rng.choice(SCHEDS),
+                      'iters': rng.choice([2, 2, 3, 80])})
+    for idx, sp in enumerate(specs):
+        sig, n_runs, n_inv, k, sched, iters = sp['sig'], sp['runs'], sp['inv'], sp['k'], sp['sched'], sp['iters']
         wd = os.path.join(ck.scratch, 'cli%d' % idx)
         os.makedirs(wd)
         harness = os.path.join(wd, 'harness.sh')
         with open(harness, 'w') as f:
-            f.write(HARNESS_SH % {'dir': wd, 'sig': sig})
+            f.write(HARNESS_SH % {'dir': wd, 'sig': sig, 'iters': iters})
         os.chmod(harness, 0o755)
         cfg = {'default_experiment': 'all', 'default_data_file': 'cli.data', 'runs': {'invocations': n_inv},
                'benchmark_suites': {'S': {'gauge_adapter': 'RebenchLog', 'command': '%(benchmark)s %(invocation)s',
@@ -246,34 +256,49 @@ def cli_sessions(ck, n_scen):
                 p.kill()
                 p.communicate()
                 raise lib.InfraError('CLI session hung')
-            before = dp.read_text(os.path.join(wd, 'starts.log'))
-            return p.returncode, before
-        rc1, _ = session(k)
+            return p.returncode
+        rc1 = session(k)
         text1 = dp.read_text(os.path.join(wd, 'cli.data'))
         time.sleep(0.05)
-        rc2, _ = session(0)
+        rc2 = session(0)
         text2 = dp.read_text(os.path.join(wd, 'cli.data'))
-        rc3, log3 = session(0)
+        rc3 = session(0)
         text3 = dp.read_text(os.path.join(wd, 'cli.data'))
         ck.impl_traces += 3
-        ck.count('cli:' + sig)
-        ck.case(nontrivial_key=('cli', idx, sig, k, sched), sample={'signal': sig, 'stop': k, 'sched': sched,
-                                                                    'exit': [rc1, rc2, rc3]})
-        inp = {'cli': True, 'signal': sig, 'stop': k, 'sched': sched, 'runs': n_runs, 'invocations': n_inv}
+        ck.count('cli:' + sig + (':big-output' if iters >= 60 else ''))
+        ck.case(nontrivial_key=('cli', idx, sig, k, sched, iters),
+                sample={'signal': sig, 'stop': k, 'sched': sched, 'iterations': iters, 'exit': [rc1, rc2, rc3]})
+        inp = {'cli': True, 'signal': sig, 'stop': k, 'sched': sched, 'runs': n_runs, 'invocations': n_inv,
+               'iterations_per_invocation': iters}
         want_rc = {'INT': 2, 'TERM': 2, 'KILL': -9}[sig]
         if rc1 != want_rc:
             ck.oracle_fail('exit_status_aborted', inp, {'exit': rc1, 'expected': want_rc}, {'signal': sig})
         if not text2.startswith(text1):
             ck.oracle_fail('append_only_after_signal', inp, {'signal': sig})
-        rows = [r[:2] + r[5:14] for r in c06.dp_rows(text2, False)]
-        want = sorted([str(i + 1), str(it)] + ['B%d' % b, 'E', 'S', '', '1', '', '', '', '']
-                      for b in range(n_runs) for i in range(n_inv) for it in (1, 2))
+        if text1 and not text1.endswith('\n'):
+            ck.oracle_fail('whole_lines_after_signal', inp, {'signal': sig, 'tail': text1[-60:]}, {'signal': sig})
+        rows = []
+        for line in text2.split('\n'):
+            if line and not line.startswith('#') and line != dp.HEADER:
+                r = line.split('\t')
+                rows.append(r[:2] + r[4:14] if len(r) == 15 else ['torn'] + r)
+        want = sorted([str(i + 1), str(it), crit] + ['B%d' % b, 'E', 'S', '', '1', '', '', '', '']
+                      for b in range(n_runs) for i in range(n_inv) for it in range(1, iters + 1)
+                      for crit in ('mem', 'gc', 'total'))
         if sorted(rows) != want:
-            ck.oracle_fail('resume_multiset', inp, {'rows': sorted(rows)[:6], 'n': len(rows), 'want_n': len(want)},
+            cg, cw = collections.Counter(map(tuple, rows)), collections.Counter(map(tuple, want))
+            lost, extra = list((cw - cg).elements()), list((cg - cw).elements())
+            ck.oracle_fail('resume_multiset', inp, {'lost': [list(x)[:4] for x in lost[:4]], 'n_lost': len(lost),
+                                                    'unexpected': [list(x)[:4] for x in extra[:3]],
+                                                    'n': len(rows), 'want_n': len(want)},
                            {'kind': 'cli', 'signal': sig})
         if text3 != text2:
             ck.oracle_fail('rerun_noop', inp, {'signal': sig}, {'what': 'bytes'})
         shutil.rmtree(wd, ignore_errors=True)
+
+
+BIG_KILL = [{'sig': 'KILL', 'runs': 2, 'inv': 2, 'k': 2, 'sched': 'batch', 'iters': 80},
+            {'sig': 'KILL', 'runs': 2, 'inv': 2, 'k': 4, 'sched': 'round-robin', 'iters': 80}]
 
 
 def run(ck):
@@ -286,7 +311,7 @@ def run(ck):
                       'the harness is deterministic: output is a function of run and invocation number; exit 127 and '
                       'OSError are excluded (C04, C13)']
     ck.exhaustive = True
-    n_scen = 12 if quick else 80
+    n_scen = 10 if quick else 80
     items, done, idx = [], 0, 0
     for name, data in c06.load_corpus(ck):
         scen = data['input']
@@ -312,16 +337,16 @@ def run(ck):
     if items:
         judge_items(ck, items)
     if not quick:
-        cli_sessions(ck, 100)
+        cli_sessions(ck, 100, BIG_KILL)
     else:
-        cli_sessions(ck, 3)
+        cli_sessions(ck, 2, BIG_KILL)
 
 
 def replay(ck, data):
     inp = data['input']
     if inp.get('cli'):
         ck.notes.append('CLI replays re-run the signal sessions from the seed')
-        cli_sessions(ck, 10)
+        cli_sessions(ck, 6, BIG_KILL)
         return
     scen = {k: inp[k] for k in ('cfg', 'specs', 'seed', 'argv', 'outputs', 'build_ok') if k in inp}
     if scen.get('outputs'):
